@@ -18,7 +18,7 @@
       </p>
     </xsl:for-each>
     <xsl:for-each select="//item[position() mod 7 = 1]">
-      <n><xsl:number level="any" count="item" format="001"/>:<xsl:number value="position() * 1234" grouping-separator="," grouping-size="3"/>:<xsl:number value="position()" format="a" lang="en" letter-value="alphabetic"/>:<xsl:number value="position() + 40" format="&#x3b1;"/></n>
+      <n><xsl:number level="any" count="item" format="001"/>:<xsl:number value="position() * 1234" grouping-separator="," grouping-size="3"/>:<xsl:number value="position()" format="a" lang="en" letter-value="alphabetic"/>:<xsl:number value="position() + 40" format="&#x3b1;" letter-value="traditional"/></n>
     </xsl:for-each>
     <xsl:apply-templates select="//chapter" mode="number"/>
   </numbers>
